@@ -26,7 +26,7 @@ Variable numeq : list N -> list N -> bool.
 Record hdr_sections := mkhs {
   hs_wrap : bool;
   hs_version : las_version;
-  hs_vers_items : list hitem;          (* the ~Version items as written (VERS substituted in a copy) *)
+  hs_vers_items : list hitem;          (* the ~Version items as written (a copy: DLM SPACE, VERS substituted) *)
   hs_lv : list (list N);
   hs_lw : list (list N);
   hs_lc : list (list N);
@@ -59,12 +59,17 @@ Definition write_sections (ver : option wver) (wrapo : option bool) (ifmt : list
   match vers with
   | None => None
   | Some v =>
+  let vcopy :=
+    match update_first trv (s2l "DLM") (fun it => set_value it (VStr (s2l "SPACE"))) (s_items (l_version l1)) with
+    | Some r => r
+    | None => s_items (l_version l1)
+    end in
   let vsw :=
     if las_version_eqb v V12 then
-      set_item trv (s2l "VERS") (new_item (s2l "VERS") [] (VFloat (s2l "1.2")) (s2l "CWLS LOG ASCII STANDARD - VERSION 1.2")) (s_items (l_version l1))
+      set_item trv (s2l "VERS") (new_item (s2l "VERS") [] (VFloat (s2l "1.2")) (s2l "CWLS LOG ASCII STANDARD - VERSION 1.2")) vcopy
     else if las_version_eqb v V20 then
-      set_item trv (s2l "VERS") (new_item (s2l "VERS") [] (VFloat (s2l "2.0")) (s2l "CWLS log ASCII Standard -VERSION 2.0")) (s_items (l_version l1))
-    else s_items (l_version l1) in
+      set_item trv (s2l "VERS") (new_item (s2l "VERS") [] (VFloat (s2l "2.0")) (s2l "CWLS log ASCII Standard -VERSION 2.0")) vcopy
+    else vcopy in
   match refresh_sss fmtv fmt_diff numeq ifmt (mkmlas l1 (m_index_initial m)) with
   | None => None
   | Some l2 =>
